@@ -33,7 +33,7 @@ import (
 // ---------------------------------------------------------------------------
 
 func C20(ctx *core.Ctx, r *core.Report) {
-	r.Explanation = "Effect analysis over everything reachable from the load and request entry points: no store to a package-level variable of the repository (directly or through a value that flowed out of one), no store to a field of a package-meta type while merely using a compiled module, and the per-request lazy cache (Constraints.compiled) is written only on per-request objects. Absence of shared writes implies race freedom and schedule independence of the analysed code; races inside user-supplied nodes and results under interleavings are not decided."
+	r.Explanation = "Effect analysis over everything reachable from the load and request entry points: no store to a package-level variable of the repository (directly or through a value that flowed out of one), no store to a field of a package-meta type while merely using a compiled module, and the per-request lazy cache (Constraints.compiled) is written only on per-request objects. Absence of shared writes implies race freedom and schedule independence of the analysed code; races inside user-supplied nodes and results under interleavings are not decided. Constructors and feature-set factories return fresh objects (no package-level instance handed out twice)."
 	load := loadRoots(ctx, r)
 	use := useRoots(ctx, r)
 	all := append(append([]*ssa.Function{}, load...), use...)
